@@ -156,7 +156,19 @@ struct Driver {
       if (p == nullptr) throw Bad("ill-typed operand " + tok);
       return *p;
    }
-   const ipr::Type& ty(const std::string& t) { return need(t, [](Val v) { return v.type; }); }
+   // "^%k" for a type operand: when line k's type is a qualified version of a type both Lexicons share (a built-in), the equally
+   // built type as owned by the OTHER Lexicon; any other type is handed over as it is
+   const ipr::Type& ty(const std::string& t)
+   {
+      if (not t.empty() and t[0] == '^') {
+         const ipr::Type& x = ty(t.substr(1));
+         if (auto q = util::view<ipr::Qualified>(x))
+            if (auto at = util::view<ipr::As_type>(q->main_variant()); at != nullptr and denote_builtin_type(*at))
+               return foreign.get_qualified(q->qualifiers(), q->main_variant());
+         return x;
+      }
+      return need(t, [](Val v) { return v.type; });
+   }
    const ipr::Expr& ex(const std::string& t) { return need(t, [](Val v) { return v.expr; }); }
    const ipr::Name& nm(const std::string& t) { return need(t, [](Val v) { return v.name; }); }
    // "^%k": the String with the spelling of line k's String, owned by another Lexicon
